@@ -36,7 +36,17 @@ func init() {
 			chunk, _ = strconv.Atoi(entry[i+1:])
 			entry = entry[:i]
 		}
+		// H<f>cut / F<f>cut: the source fails after `cut` bytes of the announced payload
+		cut := -1
+		if i := strings.Index(entry, "f"); i > 0 {
+			cut, _ = strconv.Atoi(entry[i+1:])
+			entry = entry[:i]
+		}
 		plainSrc := func(p []byte) io.Reader {
+			if cut >= 0 {
+				rd, _ := mkReader(append([]byte(nil), p[:cut]...), 0, "F")
+				return rd
+			}
 			if chunk == 0 {
 				return bytes.NewReader(p)
 			}
@@ -191,6 +201,24 @@ func genC08(tier string, r *rng) {
 					}
 					run(fmt.Sprintf("ctl Hk%d %d %d %s %s %d", k, st, op, hx(p), keys[(n+k)%2], n+op+k))
 					run(fmt.Sprintf("ctl Fk%d %d %d %s %s %d", k, st, op, hx(p), keys[(n+k)%2], n+op+k))
+				}
+			}
+		}
+	}
+	// a source that fails inside the payload (after 0, 1, half, all-but-one bytes): an error, and no reply for a
+	// frame that was never received in full
+	for _, op := range []int{8, 9, 10} {
+		for _, n := range []int{2, 7, 64, 125} {
+			for _, cutAt := range []int{0, 1, n / 2, n - 1} {
+				for _, st := range []int{1, 2} {
+					var p []byte
+					if op == 8 {
+						p = append([]byte{0x03, 0xe8}, bytes.Repeat([]byte("c"), n-2)...)
+					} else {
+						p = r.bytes(n)
+					}
+					run(fmt.Sprintf("ctl Hf%d %d %d %s %s %d", cutAt, st, op, hx(p), keys[(n+cutAt)%2], n+op))
+					run(fmt.Sprintf("ctl Ff%d %d %d %s %s %d", cutAt, st, op, hx(p), keys[(n+cutAt)%2], n+op))
 				}
 			}
 		}
